@@ -143,12 +143,12 @@ package clickhouse_transpiler
 // of the whole window in any process time zone.
 //@ func (*InitIndexPlanner).Process [C11,C13]
 //@   flag checks=-index,-assert
-//@   at sql_select.Ge lower-date-covers-window-start: isDateCol(arg0) ==> fmtDay <= fdiv(ctx.From.UnixNano(), 86400000000000)
-//@   at sql_select.Le upper-date-covers-window-end: isDateCol(arg0) ==> fmtDay >= fdiv(ctx.To.UnixNano(), 86400000000000)
+//@   at sql_select.Ge lower-date-covers-window-start: isDateCol(arg0) ==> dayOfDateText(unbox(arg1, "*sql.StringVal").val) <= fdiv(ctx.From.UnixNano(), 86400000000000)
+//@   at sql_select.Le upper-date-covers-window-end: isDateCol(arg0) ==> dayOfDateText(unbox(arg1, "*sql.StringVal").val) >= fdiv(ctx.To.UnixNano(), 86400000000000)
 //@ func (*SelectTagsPlanner).Process [C13]
 //@   flag checks=-index,-assert
-//@   at sql_select.Ge lower-date-covers-window-start: isDateCol(arg0) ==> fmtDay <= fdiv(ctx.From.UnixNano(), 86400000000000)
-//@   at sql_select.Le upper-date-covers-window-end: isDateCol(arg0) ==> fmtDay >= fdiv(ctx.To.UnixNano(), 86400000000000)
+//@   at sql_select.Ge lower-date-covers-window-start: isDateCol(arg0) ==> dayOfDateText(unbox(arg1, "*sql.StringVal").val) <= fdiv(ctx.From.UnixNano(), 86400000000000)
+//@   at sql_select.Le upper-date-covers-window-end: isDateCol(arg0) ==> dayOfDateText(unbox(arg1, "*sql.StringVal").val) >= fdiv(ctx.To.UnixNano(), 86400000000000)
 
 // `{a} || {b}`: the union of the selectors is cut to the limit by the planner above
 // this one, which keeps the first rows: they must be the most recent traces.
@@ -172,12 +172,12 @@ package clickhouse_transpiler
 // UTC day): same date coverage as the other index reads.
 //@ func (*AllTagsRequestPlanner).Process [C13]
 //@   flag checks=-index,-assert
-//@   at sql_select.Ge lower-date-covers-window-start: isDateCol(arg0) ==> fmtDay <= fdiv(ctx.From.UnixNano(), 86400000000000)
-//@   at sql_select.Le upper-date-covers-window-end: isDateCol(arg0) ==> fmtDay >= fdiv(ctx.To.UnixNano(), 86400000000000)
+//@   at sql_select.Ge lower-date-covers-window-start: isDateCol(arg0) ==> dayOfDateText(unbox(arg1, "*sql.StringVal").val) <= fdiv(ctx.From.UnixNano(), 86400000000000)
+//@   at sql_select.Le upper-date-covers-window-end: isDateCol(arg0) ==> dayOfDateText(unbox(arg1, "*sql.StringVal").val) >= fdiv(ctx.To.UnixNano(), 86400000000000)
 //@ func (*AllValuesRequestPlanner).Process [C13]
 //@   flag checks=-index,-assert
-//@   at sql_select.Ge lower-date-covers-window-start: isDateCol(arg0) ==> fmtDay <= fdiv(ctx.From.UnixNano(), 86400000000000)
-//@   at sql_select.Le upper-date-covers-window-end: isDateCol(arg0) ==> fmtDay >= fdiv(ctx.To.UnixNano(), 86400000000000)
+//@   at sql_select.Ge lower-date-covers-window-start: isDateCol(arg0) ==> dayOfDateText(unbox(arg1, "*sql.StringVal").val) <= fdiv(ctx.From.UnixNano(), 86400000000000)
+//@   at sql_select.Le upper-date-covers-window-end: isDateCol(arg0) ==> dayOfDateText(unbox(arg1, "*sql.StringVal").val) >= fdiv(ctx.To.UnixNano(), 86400000000000)
 
 // `{a} && {b} && {c}`: a selector joined with && opens a group, and the selectors
 // that follow are planned inside the group that was just opened - not inside
